@@ -556,6 +556,9 @@ func runOne(ctx *hx.Ctx, scn *chainsim.Scenario) {
 	ctx.Cov.Add("requests", out.requests)
 	if len(out.fails) > 0 {
 		class := out.fails[0][0]
+		if chainsim.Reported(ctx, "property:"+class) {
+			return
+		}
 		small := chainsim.Shrink(scn, 80, func(c *chainsim.Scenario) bool {
 			o := execute(c, ctx.Oracle, nil)
 			return o.err == nil && len(o.fails) > 0 && o.fails[0][0] == class
@@ -569,6 +572,9 @@ func runOne(ctx *hx.Ctx, scn *chainsim.Scenario) {
 		return
 	}
 	if out.diffAt >= 0 {
+		if chainsim.Reported(ctx, "correspondence:"+cmdOf(out.line)) {
+			return
+		}
 		var direct *chainsim.Scenario
 		var dmsg [2]string
 		small := chainsim.Shrink(scn, 80, func(c *chainsim.Scenario) bool {
